@@ -26,9 +26,12 @@ import (
 func init() { scenarios["c02"] = c02 }
 
 func c02(args []string) error {
-	if len(args) != 7 {
-		return fmt.Errorf("usage: c02 <dir> <trace> <pool> <ondisk> <dedupe> <n> <big>")
+	if len(args) != 7 && len(args) != 8 {
+		return fmt.Errorf("usage: c02 <dir> <trace> <pool> <ondisk> <dedupe> <n> <big> [stophold]")
 	}
+	// stophold: the crawl is stopped (gracefully) while the write of one seed's response is being held
+	stophold := len(args) == 8 && args[7] == "stophold"
+	stopNow := make(chan struct{}, 1)
 	pool, _ := strconv.Atoi(args[2])
 	ondisk := args[3] == "1"
 	dedupe := args[4] == "1"
@@ -98,6 +101,13 @@ func c02(args []string) error {
 				heldMu.Unlock()
 				if first {
 					run.tr.Emit(map[string]any{"ev": "hold.begin", "seed": name})
+					if name == "seed-stophold" {
+						select {
+						case stopNow <- struct{}{}:
+						default:
+						}
+						time.Sleep(800 * time.Millisecond)
+					}
 					time.Sleep(700 * time.Millisecond)
 					run.tr.Emit(map[string]any{"ev": "hold.end", "seed": name})
 				}
@@ -164,7 +174,9 @@ func c02(args []string) error {
 		case c == 6: // redirect to a body
 			t := uri + "-target"
 			run.org.Route(h, t, resp)
-			run.org.Route(h, uri, origin.Resp{Status: 302, Location: t, Headers: map[string]string{"Content-Type": "text/html"}, Body: "<html>moved</html>"})
+			// (the redirect answer has a body of its own, of any size and framing: it is a response like the others)
+			run.org.Route(h, uri, origin.Resp{Status: []int{301, 302, 303, 307, 308}[k%5], Location: t, Headers: map[string]string{"Content-Type": "text/html"},
+				BodyGen: &origin.BodyGen{Kind: "html", Size: sizes[r.Intn(len(sizes))], Seed: k + 11}, Chunked: r.Intn(3) == 0})
 			addSeed(uri, h)
 			continue
 		case c == 7 || c == 8: // identical payload at two URLs, above the dedupe threshold
@@ -189,10 +201,29 @@ func c02(args []string) error {
 		run.org.Route(h, uri, resp)
 		addSeed(uri, h)
 	}
+	if stophold {
+		uri := "/c02/stophold.bin"
+		run.org.Route(0, uri, origin.Resp{Status: 200, Headers: map[string]string{"Content-Type": "application/octet-stream", "X-Verif-Hold": "seed-stophold"},
+			BodyGen: &origin.BodyGen{Kind: "binary", Size: 70000, Seed: 3}})
+		seeds = append([]Seed{{ID: "seed-stophold", Value: run.org.URL(0, uri)}}, seeds...)
+	}
 	if err := run.Preload(seeds); err != nil {
 		return err
 	}
 	run.Start()
+	if stophold {
+		select {
+		case <-stopNow:
+		case <-time.After(60 * time.Second):
+		}
+		run.tr.Emit(map[string]any{"ev": "graceful.stop"})
+		run.Stop(90 * time.Second)
+		snapshot("stopped", "")
+		open, final := run.WarcFiles()
+		run.tr.Emit(map[string]any{"ev": "warc.files", "open": append([]string{}, open...), "final": append([]string{}, final...)})
+		run.tr.Emit(map[string]any{"ev": "run.end"})
+		return run.tr.Close()
+	}
 	all := run.WaitFinished(ids, 300*time.Second, 30*time.Second)
 	run.Quiesce(300*time.Millisecond, 5*time.Second)
 	run.tr.Emit(map[string]any{"ev": "quiescent", "all_finished": all, "table": append([]string{}, run.StateTable()...)})
